@@ -1135,3 +1135,9 @@ TABLE["C06"] += [
     B("static-check-statement-from-the-first-overload", {"M9"},
       (MW, "                check_statement = self._wrap_method_check_statement(\n                    static_overload.args)", "                check_statement = self._wrap_method_check_statement(\n                    static_overloads[0].args)")),
 ]
+TABLE["C05"] += [
+    B("accessor-text-dropped-after-its-id-was-allocated", {"I3"},
+      (MW, "            properties.append(getter)\n", "            if propty.name.startswith('_'):\n                continue\n            properties.append(getter)\n")),
+    B("upcast-routine-named-differently-at-definition-and-call", {"I5"},
+      (MW, "                    id_val[1].name, idx, id_val[1].to_cpp())", "                    id_val[0] + id_val[1].name, idx, id_val[1].to_cpp())")),
+]
